@@ -16,8 +16,8 @@ Fixpoint run_ops (s : spacket) (ops : list (bool * dgram)) (acc : list V) : spac
 Definition run (ops : list (bool * dgram)) (index ethertype : Z) : V :=
   let '(s, outs) := run_ops {| sp := empty_packet; on_the_fly := [] |} ops [] in
   VL [VL outs;
-      VOpt VB (assemble (sp s) index ethertype);
-      VOpt VB (sterile s index ethertype);
+      VOpt VR (assemble (sp s) index ethertype);
+      VOpt VR (sterile s index ethertype);
       VBool (full (sp s));
       VZ (p_size (sp s));
       VL (map (fun e => VL [VZ (fst (fst e)); VZ (snd (fst e)); VZ (snd e)]) (on_the_fly s))].
